@@ -110,14 +110,14 @@ def check(run):
         run.check(not any(q.exit_reachable_under(ip, p, starts, size_is_one) for p in pushes), 'R10', 'queue-sender-start-all-paths', ip.norm, ip.loc(),
                   'with exactly one packet queued (the hop was idle) a path from the enqueue reaches the end of incoming_packet without starting the sender', 'with size()==1 every path after the push starts the sender')
     cont = [c for c in ns.calls() if c.get('usr') == bs.usr]
-    okc = bool(cont)
-    for c in cont:
-        g = [(q.render(ns, a), p) for a, p in q.guards_at(ns, c)]
-        ga = q.guards_at(ns, c)
-        okc = okc and len(ga) == 1 and q.nonempty_test(ns, ga[0][0], ga[0][1], 'm_queue') is True
     er = [c for op, c in q.container_calls(ns, 'm_queue', {'pop_front'})]
-    early = [r for r in q.returns(ns) if er and q.any_precedes(ns, er, r)]
-    run.check(okc and not early, 'R10', 'queue-sender-continue', ns.norm, ns.loc(), 'after a departure the sender is not restarted exactly when packets remain (early return or extra condition)', 'continues iff the queue is non-empty')
+    # evaluated in the two abstract states after the departure: packets remain -> every path restarts the sender;
+    # queue drained -> the sender is not restarted
+    def qstate(nonempty):
+        return lambda atom: {'m_queue.empty()': not nonempty, 'm_queue.size()': nonempty, '(m_queue.size() > 0)': nonempty, '(m_queue.size() != 0)': nonempty, '(m_queue.size() == 0)': not nonempty}.get(q.render(ns, q.strip_casts(atom))) \
+            if q.strip_casts(atom)['k'] not in ('un',) and not (q.strip_casts(atom)['k'] == 'bin' and q.strip_casts(atom)['op'] in ('&&', '||')) else None
+    okc = bool(cont) and bool(er) and not q.exit_reachable_under(ns, er[0], cont, qstate(True)) and not q.reachable_under(ns, er[0], cont, qstate(False))
+    run.check(okc, 'R10', 'queue-sender-continue', ns.norm, ns.loc(), 'after a departure the sender is not restarted exactly when packets remain (early return or extra condition)', 'continues iff the queue is non-empty')
     # begin_send: every path ends armed
     arms = []
     bound = handlers.bound_member_functions(fx)
@@ -170,9 +170,11 @@ def check(run):
                       'the per-byte time is an INTEGER quotient (%s) that is then multiplied by the packet size: the truncation error grows with the size, far beyond one tick, and the link runs too fast for bandwidths that do not divide 1e9' % ty,
                       'integer division is the last step')
     zb = [c for c in bs.calls() if q.callee_name(c) == 'boost::asio::post']
+    def bwstate(zero):
+        return lambda atom: {'(m_bandwidth == 0)': zero, '(m_bandwidth != 0)': not zero, 'm_bandwidth': not zero, '(m_bandwidth > 0)': not zero, '(0 == m_bandwidth)': zero, '(0 != m_bandwidth)': not zero}.get(q.render(bs, q.strip_casts(atom))) \
+            if q.strip_casts(atom)['k'] != 'un' else None
     for c in zb:
-        g = [(q.render(bs, a), p) for a, p in q.guards_at(bs, c)]
-        run.check(('(m_bandwidth == 0)', True) in g, 'R5', 'zero-bandwidth-posts', bs.norm, bs.loc(c), 'the immediate departure is not guarded by m_bandwidth == 0', 'immediate departure only for zero bandwidth')
+        run.check(not q.reachable_under(bs, None, [c], bwstate(False)), 'R5', 'zero-bandwidth-posts', bs.norm, bs.loc(c), 'the immediate departure is reachable with a non-zero bandwidth', 'immediate departure only for zero bandwidth')
 
     run.clause('formula structure: arrival+latency stamped at enqueue and waited for; serialisation added to a time base read from the clock in the same invocation; departure timer armed at that instant')
     for c in pushes:
@@ -184,13 +186,16 @@ def check(run):
             run.broke('queue::incoming_packet: local `now` not found (renamed?)')
             continue
         run.check(defs == ['sim::chrono::high_resolution_clock::now()'], 'R4', 'latency-clock', ip.norm, ip.loc(c), '`now` is not the current virtual time', '`now` is high_resolution_clock::now()')
-    waits = [nn for nn in bs.all_nodes() if nn['k'] == 'if' and 'm_queue.front().ts' in q.render(bs, nn['cond'])]
+    cs_ = q.const_local_subst(bs)
+    nm_ = {d_: q.render(bs, e_) for d_, e_ in cs_.items() if 'm_queue.front()' in q.render(bs, e_)}      # `ready = m_queue.front().ts` stands for its definition
+    R_ = lambda x: q.render(bs, x, names=nm_)
+    waits = [nn for nn in bs.all_nodes() if nn['k'] == 'if' and 'm_queue.front().ts' in R_(nn['cond'])]
     okw = False
     for w in waits:
         c = q.cmp_atom(w['cond'])
-        okw = bool(c) and ((c[0] == '>' and q.render(bs, c[1]) == 'm_queue.front().ts' and q.render(bs, c[2]) == 'now') or (c[0] == '<' and q.render(bs, c[2]) == 'm_queue.front().ts'))
+        okw = bool(c) and ((c[0] == '>' and R_(c[1]) == 'm_queue.front().ts' and R_(c[2]) == 'now') or (c[0] == '<' and R_(c[2]) == 'm_queue.front().ts'))
         ex = [x for x in walk(w['then']) if x['k'] == 'call' and (q.callee_name(x) or '').endswith('expires_at')]
-        okw = okw and bool(ex) and q.render(bs, ex[0]['args'][0]) == 'm_queue.front().ts' and any(x['k'] == 'return' for x in walk(w['then']))
+        okw = okw and bool(ex) and R_(ex[0]['args'][0]) == 'm_queue.front().ts' and bool(q.leaves_function(bs, w['then']) or not q.exit_reachable_under(bs, ex[0], [x for x in bs.calls() if q.callee_name(x) == handlers.TIMER_WAIT and any(y is x for y in walk(w['then']))], lambda a_: None) )
     run.check(okw, 'R4', 'latency-waited', bs.norm, bs.loc(), 'the sender does not wait until the front packet\'s arrival+latency stamp before serialising it', 'if (front().ts > now) wait until front().ts and return')
     adds = [a for a in q.field_accesses(bs, {Q + '::m_last_forward'}) if a.kind == 'compound' and a.method == '+=']
     base = [a for a in q.field_accesses(bs, {Q + '::m_last_forward'}) if a.kind == 'assign']
